@@ -86,8 +86,8 @@ func genMeta(r *common.Rand) string {
 	for k := 0; k < r.Intn(3); k++ {
 		parts = append(parts, "group="+c14Groups[r.Intn(len(c14Groups))])
 	}
-	if r.Chance(25) {
-		parts = append(parts, "weight=3")
+	if r.Chance(35) {
+		parts = append(parts, "weight="+[]string{"3", "1", "0", "2", "-1"}[r.Intn(5)])
 	}
 	if r.Chance(8) {
 		parts = append(parts, "state=inactive") // a second state value: only the first counts
@@ -110,7 +110,37 @@ func genSnap(r *common.Rand) snap {
 	for i := 0; i < n; i++ {
 		s[fmt.Sprintf("vsrv@d%d", r.Intn(8))] = genMeta(r)
 	}
+	if r.Chance(15) {
+		// a drained set: every server that is still announced carries weight 0
+		for k, v := range s {
+			if v != "%zz" && !strings.Contains(v, "weight=") {
+				s[k] = strings.TrimPrefix(v+"&weight=0", "&")
+			} else if v != "%zz" {
+				s[k] = "weight=0"
+			}
+		}
+	}
 	return s
+}
+
+// c14Weight: the weight the weighted strategy gives a server (first weight value; missing or unparsable = 1; negative = 0)
+func c14Weight(meta string) int {
+	v, err := url.ParseQuery(meta)
+	if err != nil {
+		return 1
+	}
+	w := v.Get("weight")
+	if w == "" {
+		return 1
+	}
+	n, err := strconv.Atoi(w)
+	if err != nil {
+		return 1
+	}
+	if n < 0 {
+		return 0
+	}
+	return n
 }
 
 func (s snap) pairs() []*client.KVPair {
@@ -226,11 +256,20 @@ func (g *gateSel) UpdateServer(servers map[string]string) {
 
 var modes = []client.SelectMode{client.RandomSelect, client.RoundRobin, client.WeightedRoundRobin, client.ConsistentHash}
 
-func waitServers(xc client.XClient, want []string) bool {
+// waitServers waits until the client holds exactly the servers [want] WITH the metadata of [last] (the watch loop
+// replaces the set and updates the selector under one lock, so the selector has then seen this snapshot too)
+func waitServers(xc client.XClient, want []string, last snap) bool {
 	deadline := time.Now().Add(2 * time.Second)
 	for {
-		got := mapKeys(client.VerifXClientServers(xc))
-		if strings.Join(got, ",") == strings.Join(want, ",") {
+		gm := client.VerifXClientServers(xc)
+		got := mapKeys(gm)
+		same := strings.Join(got, ",") == strings.Join(want, ",")
+		for _, k := range want {
+			if same && gm[k] != last[k] {
+				same = false
+			}
+		}
+		if same {
 			return true
 		}
 		if time.Now().After(deadline) {
@@ -242,7 +281,16 @@ func waitServers(xc client.XClient, want []string) bool {
 
 // one history: initial set, then bursts of publications (optionally with the watch loop stalled)
 func c14History(o *common.Out, id string, r *common.Rand, group string, mode int, stall bool, hist []snap, bursts []int) {
-	abstract := fmt.Sprintf("hist|%s|%d|%v|%d snapshots", group, mode, stall, len(hist))
+	// the whole history is in the case line, so that a failure replays: hist|group|mode|stall|bursts|snap#snap#...
+	var hs []string
+	for _, sn := range hist {
+		hs = append(hs, sn.enc())
+	}
+	var bs []string
+	for _, b := range bursts {
+		bs = append(bs, strconv.Itoa(b))
+	}
+	abstract := fmt.Sprintf("hist|%s|%d|%v|%s|%s", group, mode, stall, strings.Join(bs, ","), strings.Join(hs, "#"))
 	o.Begin(id, abstract)
 	d, _ := client.NewMultipleServersDiscovery(hist[0].pairs())
 	opt := client.DefaultOption
@@ -294,7 +342,7 @@ func c14History(o *common.Out, id string, r *common.Rand, group string, mode int
 		}
 		last := hist[idx-1]
 		want := last.expect(group)
-		if !waitServers(xc, want) {
+		if !waitServers(xc, want, last) {
 			got := mapKeys(client.VerifXClientServers(xc))
 			o.Fail(id, "not-converged", fmt.Sprintf("after update %d stopped, the client selects among %v; the last published set, filtered for group %q, is %v", idx-1, got, group, want), abstract)
 		}
@@ -313,8 +361,18 @@ func c14History(o *common.Out, id string, r *common.Rand, group string, mode int
 			for k := 0; k < 40; k++ {
 				s := client.VerifXClientSelect(xc, "Svc", "M", k)
 				if s == "" {
-					if len(want) > 0 {
-						o.Fail(id, "empty-selection", fmt.Sprintf("selector returned nothing although %v are eligible", want), abstract)
+					eligible := want
+					if modes[mode%len(modes)] == client.WeightedRoundRobin {
+						// the weighted strategy never picks a server whose weight is 0
+						eligible = nil
+						for _, w := range want {
+							if c14Weight(last[w]) > 0 {
+								eligible = append(eligible, w)
+							}
+						}
+					}
+					if len(eligible) > 0 {
+						o.Fail(id, "empty-selection", fmt.Sprintf("selector returned nothing although %v are eligible", eligible), abstract)
 						break
 					}
 					continue
@@ -348,19 +406,47 @@ func c14History(o *common.Out, id string, r *common.Rand, group string, mode int
 	o.Count(fmt.Sprintf("stalled=%v", stall))
 }
 
+func (s snap) enc() string {
+	var enc []string
+	for k, v := range s {
+		enc = append(enc, k+"~"+url.QueryEscape(v))
+	}
+	sort.Strings(enc)
+	return strings.Join(enc, ";")
+}
+
+func parseSnap(t string) snap {
+	s := snap{}
+	for _, e := range strings.Split(t, ";") {
+		if e == "" {
+			continue
+		}
+		kv := strings.SplitN(e, "~", 2)
+		m, _ := url.QueryUnescape(kv[1])
+		s[kv[0]] = m
+	}
+	return s
+}
+
 func runC14(r *common.Rand, tier string, o *common.Out, replay string) {
 	if replay != "" && strings.HasPrefix(replay, "flt|") {
 		p := strings.SplitN(replay, "|", 3)
-		s := snap{}
-		for _, e := range strings.Split(p[2], ";") {
-			if e == "" {
-				continue
-			}
-			kv := strings.SplitN(e, "~", 2)
-			m, _ := url.QueryUnescape(kv[1])
-			s[kv[0]] = m
+		c14Filter(o, "replay", p[1], parseSnap(p[2]))
+		return
+	}
+	if replay != "" && strings.HasPrefix(replay, "hist|") {
+		p := strings.SplitN(replay, "|", 6)
+		mode, _ := strconv.Atoi(p[2])
+		var bursts []int
+		for _, b := range strings.Split(p[4], ",") {
+			n, _ := strconv.Atoi(b)
+			bursts = append(bursts, n)
 		}
-		c14Filter(o, "replay", p[1], s)
+		var hist []snap
+		for _, t := range strings.Split(p[5], "#") {
+			hist = append(hist, parseSnap(t))
+		}
+		c14History(o, "replay", r, p[1], mode, p[3] == "true", hist, bursts)
 		return
 	}
 	nf := 1200
@@ -402,7 +488,31 @@ func runC14(r *common.Rand, tier string, o *common.Out, replay string) {
 			bursts = append(bursts, b)
 			rem -= b
 		}
-		c14History(o, fmt.Sprintf("h%d", i), r, group, i, stall, hist, bursts)
+		mode := i / 2 // every strategy serves stalled and free-running histories alike
+		if !stall && i%8 == 3 && len(hist) >= 2 {
+			// weighted strategy: a set with positive weights, then a drained one (a non-empty subset of it, every
+			// weight 0) as a burst of its own: nothing is eligible any more, and the servers that left must be gone
+			mode = 2
+			full := snap{}
+			for k := 0; k < 2+r.Intn(4); k++ {
+				full[fmt.Sprintf("vsrv@d%d", k)] = "weight=" + strconv.Itoa(1+r.Intn(3))
+			}
+			drained := snap{}
+			for k := range full {
+				if len(drained) == 0 || r.Chance(40) {
+					drained[k] = "weight=0"
+				}
+			}
+			if len(drained) == len(full) {
+				for k := range drained {
+					delete(drained, k)
+					break
+				}
+			}
+			hist = append(hist, full, drained)
+			bursts = append(bursts, 1, 1)
+		}
+		c14History(o, fmt.Sprintf("h%d", i), r, group, mode, stall, hist, bursts)
 	}
 }
 
